@@ -159,6 +159,20 @@ fn gts_in_last(blocks: &[Block], parent: &[Option<usize>], from: usize, n: usize
     (c, depth)
 }
 
+/// The node's rule as documented in the property: at least 2 golden tickets among the block and
+/// its 5 ancestors once 5 ancestors exist; at least 1 when exactly 4 ancestors exist (start-up).
+pub fn density_violated(blocks: &[Block], parent: &[Option<usize>], pidx: usize, has_gt: bool) -> bool {
+    let (c, depth) = gts_in_last(blocks, parent, pidx, 5);
+    let total = c + if has_gt { 1 } else { 0 };
+    if depth >= 5 {
+        total < 2
+    } else if depth == 4 {
+        total < 1
+    } else {
+        false
+    }
+}
+
 pub async fn replay_into(
     node: &mut Node,
     blocks: &[Block],
@@ -178,7 +192,11 @@ pub async fn replay_into(
             force_accept(node, &blocks[i]).await;
             continue;
         }
-        let _ = node.add_guarded(blocks[i].clone()).await;
+        let ok = matches!(node.add_guarded(blocks[i].clone()).await.as_ref().map(res_str), Some("added_lc"));
+        if !ok && node.chain.get_latest_block_hash() == blocks[i].previous_block_hash {
+            // individually valid block whose chain is not adoptable here (golden-ticket density)
+            force_accept(node, &blocks[i]).await;
+        }
     }
 }
 
@@ -296,6 +314,8 @@ pub async fn build_block_ex(
     let mut txs = plan_txs(node, bs, pid + 1, ts);
     let mut reason: Option<String> = None;
     if let Some((edit, att, vic)) = bs.bad_tx {
+        // attacker and victim must be different keys, else some edits are no-ops
+        let vic = if vic == att { (att + 1) % 4 } else { vic };
         let (spent, expired) = spent_and_expired(node, pid + 1);
         let ctx = EditCtx { node, attacker: att, victim: vic, for_block_id: pid + 1, ts: ts + 77, spent: &spent, expired: &expired };
         if let Some(bad) = edited_tx(edit, &ctx) {
@@ -427,6 +447,16 @@ pub async fn build_history(spec: &HistSpec) -> Built {
             invalid.push(None);
             last_hash = b.hash;
             tips.insert(b.hash, node);
+        } else if rs == "invalid" && !spec.gt_policy && density_violated(&blocks, &parent, pidx, b.has_golden_ticket) {
+            // the block itself is fine; its chain is not adoptable at this height because of the
+            // golden-ticket density rule. Keep building on it (C05 needs such side chains).
+            force_accept(&mut node, &b).await;
+            blocks.push(b.clone());
+            parent.push(Some(pidx));
+            invalid.push(None);
+            last_hash = b.hash;
+            tips.insert(b.hash, node);
+            continue;
         } else {
             rejected_own.push((pidx, b.clone(), rs));
             // builder itself rejected its own block: keep the block (C07 looks at this), but the
